@@ -157,10 +157,26 @@ def ensure_gen():
     narrow_ok = rc == 0
     narrow_err = e2
     prog = os.path.join(gd, "progress.txt")
-    rc, out_main, err = sh([os.path.join(gd, "gen_dump"), "main", prog], timeout=300)
-    if rc != 0:
-        last = open(prog).read().strip() if os.path.exists(prog) else "?"
-        raise BuildError("run-gen_dump", "table dumper aborted (exit %d) during call: %s\n%s" % (rc, last, err[-3000:]))
+    out_main = ""
+    section_errors = {}
+    poison = {
+        "pty": "".join("Definition pty_%s_%s : list (list Z) := [].\n" % (a, b) for b in ("name", "short", "long") for a in ("rds", "rbds")),
+        "country": "Definition country_name : list (list Z) := [].\nDefinition country_iso : list (list Z) := [].\n",
+    }
+    for section in ("consts", "conv", "ecc", "pty", "country"):
+        rc, o, err = sh([os.path.join(gd, "gen_dump"), section, prog], timeout=300)
+        if rc != 0:
+            last = open(prog).read().strip() if os.path.exists(prog) else "?"
+            msg = "table dumper aborted (exit %d) in section %s during call: %s\n%s" % (rc, section, last, err[-3000:])
+            if section in poison:
+                # only the lookup properties depend on this section: poison it, they will fail
+                section_errors[section] = {"call": last, "stderr": err[-3000:], "rc": rc}
+                o = "(* section %s: the dumper aborted during call %s *)\n" % (section, last) + poison[section]
+            else:
+                raise BuildError("run-gen_dump", msg)
+        out_main += o
+    with open(os.path.join(gd, "section_errors.json"), "w") as f:
+        json.dump(section_errors, f)
     out_n = ""
     if narrow_ok:
         rc, out_n, err = sh([os.path.join(gd, "gen_dump_n"), "narrow", prog], timeout=300)
@@ -568,6 +584,17 @@ def check_property(prop, tier, seed):
     for r in results:
         out = r.get("out")
         if out is None:
+            c = r.get("counts", {})
+            evaluations += c.get("evaluations", 0)
+            observed += c.get("observed", 0)
+            families[r["name"]] = dict(c)
+            for v in r.get("extra_violations", []):
+                violations.append(v)
+            for k, v in r.get("extra_cov", {}).items():
+                if k == "samples":
+                    cov["samples"] += v
+                else:
+                    cov[k] = v
             continue
         st = out["stat"]
         evaluations += st.get("ops", 0)
@@ -607,6 +634,9 @@ def check_property(prop, tier, seed):
         for k, v in r.get("extra_cov", {}).items():
             cov[k] = v
 
+    # a concrete failing input explains a broken obligation: report the input, not both
+    if any(v.get("found_input") for v in violations):
+        violations = [v for v in violations if v["kind"] != "obligation"]
     # ---------------- verdict ----------------
     kf = known_findings()
     reported = []
@@ -678,11 +708,11 @@ def check_property(prop, tier, seed):
         "rule": "evaluations = API calls executed on the compiled library and on the extracted model; distinct_nontrivial = calls on which "
                 "the property's extracted observer was evaluated on the implementation's before/after snapshots and callback log, plus twin-run "
                 "assertions (relational properties); scripts are generated per family from VERIF_SEED",
-        "traces_validated_against_impl": sum(f["scripts"] for f in families.values()),
+        "traces_validated_against_impl": sum(f.get("scripts", 0) for f in families.values()),
         "model_impl_divergences": divs,
         "foreign_divergences": foreign,
         "families": families,
-        "exhaustive": bool(spec.get("exhaustive", False)),
+        "exhaustive": bool(cov.get("exhaustive", spec.get("exhaustive", False))),
         "notes": notes,
     })
     ev = {
